@@ -346,7 +346,7 @@ static TbCase genTb(bool condOnly)
   c.T = genTargets(ndim, ndim == 3 ? 343 : 400, -1, true);
   int nt = c.T.n();
   double L = c.T.extent();
-  c.nvar = condOnly ? 1 : (G::pct(25) ? 2 : 1);
+  c.nvar = condOnly ? G::pick<int>({1, 1, 1, 2, 3}) : (G::pct(25) ? 2 : 1); // conditional co-simulations: the data of every variable are honoured
   int ns = G::i(1, 3);
   bool wantNugget = G::pct(condOnly ? 50 : 30);
   for (int k = 0; k < ns; k++)
@@ -530,9 +530,20 @@ static double kappaOfData(const TbCase& c, const TbWorld& w, double* scale)
 {
   std::vector<int> place;
   int nd = (int)c.place.size();
-  for (int k = 0; k < nd; k++) if (!isNA(c.z[(size_t)k])) place.push_back(c.place[(size_t)k]);
+  std::vector<int> kept;
+  for (int k = 0; k < nd; k++)
+  {
+    bool any = false;
+    for (int v = 0; v < c.nvar; v++) any = any || !isNA(c.z[(size_t)v * nd + (size_t)k]);
+    if (any) { place.push_back(c.place[(size_t)k]); kept.push_back(k); }
+  }
   std::unique_ptr<Db> d = buildDataOn(w.dbout.get(), c.T.ndim, place);
-  d->addColumns(VectorDouble(place.size(), 0.), "z", ELoc::Z, 0);
+  for (int v = 0; v < c.nvar; v++)
+  {
+    VectorDouble col(place.size(), 0.);
+    for (size_t q = 0; q < kept.size(); q++) if (isNA(c.z[(size_t)v * nd + (size_t)kept[q]])) col[q] = TEST;
+    d->addColumns(col, "z" + std::to_string(v + 1), ELoc::Z, v);
+  }
   MatrixSquareSymmetric C = w.model->evalCovMatrixSymmetric(d.get());
   int n = C.getNRows();
   Eigen::MatrixXd M(n, n);
@@ -565,34 +576,40 @@ static void runTbCond(const TbCase& c, Ctx& ctx)
   int dbinCols = 0;
   int err = callTb(c, c.seed, a, &dbinCols);
   if (err != 0) { ctx.fail("error:simtub", fmt("conditional simtub returned error %d on a valid input", err)); return; }
-  if ((int)a.size() != c.nbsimu) { ctx.fail("columns:simtub", fmt("%d output columns for nbsimu=%d", (int)a.size(), c.nbsimu)); return; }
-  if (dbinCols != c.T.ndim + 1) { ctx.fail("dbin-columns:simtub", fmt("the data base keeps %d columns (expected %d)", dbinCols, c.T.ndim + 1)); return; }
+  if ((int)a.size() != c.nbsimu * c.nvar) { ctx.fail("columns:simtub", fmt("%d output columns for nbsimu=%d and %d variable(s)", (int)a.size(), c.nbsimu, c.nvar)); return; }
+  if (dbinCols != c.T.ndim + c.nvar) { ctx.fail("dbin-columns:simtub", fmt("the data base keeps %d columns (expected %d)", dbinCols, c.T.ndim + c.nvar)); return; }
+  if (c.nvar > 1) ctx.label(fmt("cosimulation:nvar%d:nbsimu%s", c.nvar, c.nbsimu == c.nvar ? "=nvar" : "!=nvar"));
   if (!(kappa <= 1e10)) { ctx.inconclusive("ill-conditioned"); return; }
   double zmax = 0;
   for (double v : c.z) if (!isNA(v)) zmax = std::max(zmax, std::fabs(v));
-  double scale = zmax + std::fabs(c.means[0]) + 10. * cscale + 1.;
+  double mmax = 0;
+  for (double m : c.means) mmax = std::max(mmax, std::fabs(m));
+  double scale = zmax + mmax + 10. * cscale + 1.;
   double tol = 1e4 * kappa * 2.220446049250313e-16 * scale;
   bool checked = false;
-  for (int k = 0; k < nd; k++)
-  {
-    double z = c.z[(size_t)k];
-    if (isNA(z)) continue;
-    int t = c.place[(size_t)k];
-    for (int s = 0; s < c.nbsimu; s++)
+  // outputs are ordered by variable, then by simulation (the documented item rank: isimu + nbsimu * ivar)
+  for (int iv = 0; iv < c.nvar; iv++)
+    for (int k = 0; k < nd; k++)
     {
-      double v = a[(size_t)s][(size_t)t];
-      checked = true;
-      if (std::fabs(v - z) <= tol) continue;
-      std::string key;
-      if (c.T.grid) key = (nd == 1) ? "cond:grid:single-datum" : "cond:grid";
-      else if (t < nd && t != k && sameBits(v, c.z[(size_t)t])) key = "cond:points:overwritten";
-      else if (t != k && nugget) key = "cond:points:nugget";
-      else key = "cond:points";
-      ctx.fail(key, fmt("simulation %d at target %d = %.17g, datum %d located there = %.17g (tol %.3g, kappa %.3g)", s + 1, t, v,
-                        k, z, tol, kappa));
-      return;
+      double z = c.z[(size_t)iv * nd + (size_t)k];
+      if (isNA(z)) continue;
+      int t = c.place[(size_t)k];
+      for (int s = 0; s < c.nbsimu; s++)
+      {
+        double v = a[(size_t)(s + c.nbsimu * iv)][(size_t)t];
+        checked = true;
+        if (std::fabs(v - z) <= tol) continue;
+        std::string key;
+        if (c.T.grid) key = (nd == 1) ? "cond:grid:single-datum" : "cond:grid";
+        else if (t < nd && t != k && sameBits(v, c.z[(size_t)iv * nd + (size_t)t])) key = "cond:points:overwritten";
+        else if (t != k && nugget) key = "cond:points:nugget";
+        else key = "cond:points";
+        if (c.nvar > 1) key += ":multivariate";
+        ctx.fail(key, fmt("variable %d simulation %d at target %d = %.17g, datum %d located there = %.17g (tol %.3g, kappa %.3g)", iv + 1, s + 1, t, v,
+                          k, z, tol, kappa));
+        return;
+      }
     }
-  }
   ctx.nontrivial(checked);
   ctx.sig = Hash().add(c.T.ndim).add(c.T.grid).add(c.moving).add(c.nbsimu).add(c.nbtuba).add(c.drift).add(nd).add(c.placeMode)
               .add(hashStrucs(c.strucs)).h;
